@@ -445,3 +445,52 @@ func HarnessC17Upgrade() {
 		}
 	}
 }
+
+// HarnessC17UpgradeInvalidParent: with upgrades enabled, an installed
+// dependency with two parents of which one declares a constraint that is
+// neither a version range nor a digest. "Every parent's constraint" cannot be
+// satisfied then: the dependency is not moved and the resolution does not
+// report success, whatever the other parent's (valid) constraint says about
+// the installed version.
+//
+//gosym:harness
+//gosym:cover invalid-first invalid-second
+func HarnessC17UpgradeInvalidParent() {
+	s := zzStore()
+	_, tags := zzTags(zz.Bound(2, 3), 0)
+	valid := zzConstraints[zz.Choose("valid.constraint", 6)]
+	bad := zzConstraints[len(zzConstraints)-1]
+	cs := []zzConstraint{valid, bad}
+	if zz.Bool("invalid.first") {
+		zz.Cover("invalid-first")
+		cs = []zzConstraint{bad, valid}
+	} else {
+		zz.Cover("invalid-second")
+	}
+	lock := &v1beta1.Lock{ObjectMeta: metav1.ObjectMeta{Name: lockName}}
+	for k, src := range []string{zzParentA, zzParentC} {
+		lock.Packages = append(lock.Packages, v1beta1.LockPackage{
+			Name: "parent" + string(rune('0'+k)) + "-rev", Type: ptr.To(v1beta1.ProviderPackageType), Source: src, Version: "v1.0.0",
+			Dependencies: []v1beta1.Dependency{{Package: zzDep, Type: ptr.To(v1beta1.ProviderPackageType), Constraints: cs[k].text}},
+		})
+	}
+	locked := zzVersion("locked")
+	lock.Packages = append(lock.Packages, v1beta1.LockPackage{
+		Name: "pkg-b-rev", Type: ptr.To(v1beta1.ProviderPackageType), Source: zzDep, Version: locked.tag,
+	})
+	s.Put(lock)
+	p := &v1.Provider{ObjectMeta: metav1.ObjectMeta{Name: "org-pkg-b"}}
+	p.Spec.Package = zzDep + ":" + locked.tag
+	s.Put(p)
+	before, _ := zzInstalled(s)
+
+	r := zzReconciler(s, tags, true, zz.Bool("downgradesEnabled"))
+	_, err := r.Reconcile(context.Background(), reconcile.Request{NamespacedName: types.NamespacedName{Name: lockName}})
+	got, exists := zzInstalled(s)
+	zz.Assert("installed-package-still-exists", exists)
+	zz.Assert("dependency-with-an-unparsable-parent-constraint-is-not-moved", got == before)
+	stored := &v1beta1.Lock{}
+	s.Peek("", lockName, stored)
+	ok := stored.GetCondition(v1beta1.TypeResolved).Status == "True"
+	zz.Assert("resolution-with-an-unparsable-parent-constraint-does-not-succeed", err != nil || !ok)
+}
